@@ -54,6 +54,9 @@ def shapes_of(n, order, rs):
     return [a, b, rest // b]
 
 
+STRUCTURED = ["lower", "lowertri", "uppertri", "upper", "tridiag", "cdiag", "diag", "single", "blockdiag", "realsym"]
+
+
 def build_h(hkind, n, rs, hnorm, rows=None, cols=None):
     rows = n if rows is None else rows
     cols = n if cols is None else cols
@@ -67,6 +70,28 @@ def build_h(hkind, n, rs, hnorm, rows=None, cols=None):
             a = np.diag(np.real(np.diag(a))).astype(float)
         elif hkind == "upper":
             a = np.triu(a, 1) if n > 1 else a
+        elif hkind == "lower":          # strictly lower triangular (e.g. a lowering operator): nilpotent
+            a = np.tril(a, -1) if n > 1 else a
+        elif hkind == "lowertri":       # lower triangular with a diagonal
+            a = np.tril(a)
+        elif hkind == "uppertri":
+            a = np.triu(a)
+        elif hkind == "tridiag":        # Hermitian banded
+            a = (a + a.conj().T) / 2
+            a = np.triu(np.tril(a, 1), -1)
+        elif hkind == "cdiag":          # complex diagonal
+            a = np.diag(np.diag(a))
+        elif hkind == "single":         # one off-diagonal entry plus a real diagonal
+            b = np.diag(np.real(np.diag(a))).astype(complex)
+            if n > 1:
+                i, j = (int(x) for x in rs.choice(n, size=2, replace=False))
+                b[i, j] = a[i, j]
+            a = b
+        elif hkind == "blockdiag":      # two uncoupled Hermitian blocks
+            a = (a + a.conj().T) / 2
+            k = n // 2
+            a[:k, k:] = 0
+            a[k:, :k] = 0
         # "nonherm": as drawn
     nrm = np.linalg.norm(a, 2)
     if nrm == 0:
@@ -87,7 +112,7 @@ def build_psi(pdtype, shape, rs):
 
 
 def is_hermitian_kind(hkind):
-    return hkind in ("herm", "realsym", "diag")
+    return hkind in ("herm", "realsym", "diag", "tridiag", "blockdiag")
 
 
 # ---------------------------------------------------------------------------------------
@@ -368,6 +393,9 @@ class C20(Prop):
                                 r = rng.random()
                                 pdtype = "complex" if r < 0.86 else ("real" if r < 0.94 else "int")
                                 hk = hkinds[(i + rep) % len(hkinds)] if len(hkinds) == 2 and stream == "main" and not thorough else rng.choice(hkinds)
+                                if rng.random() < 0.25:
+                                    # structured matrices (triangular, nilpotent, banded, diagonal, block diagonal, one coupling)
+                                    hk = rng.choice(STRUCTURED)
                                 cases.append({"kind": "te", "mode": mode, "forward": forward, "n": n, "order": order, "t": t,
                                               "hkind": hk, "hnorm": rng.choice([0.5, 1.5, 3.0]), "pdtype": pdtype,
                                               "seed": rng.randrange(10 ** 6)})
